@@ -137,6 +137,10 @@ def dict_set(eng, st, ref, k, v):
         st.heap.fields[f"__in_{o}"] = z3.Store(z3.If(was, z3.Store(f_in, Val.rid(prev), Val.bool(z3.BoolVal(False))), f_in), v.t, Val.bool(z3.BoolVal(True)))
         st.heap.fields[f"__key_{o}"] = z3.Store(st.field(f"__key_{o}"), v.t, kt)
         st.written_fields.update({f"__in_{o}", f"__key_{o}"})
+        for name, a in eng.contracts.aggregates.items():
+            if a["over"] == o:
+                gone = z3.If(was, eng.agg_contrib(st, name, Val.rid(prev)), 0)
+                st.ghost["agg:" + name] = eng.agg_value(st, name) - gone + eng.agg_contrib(st, name, v.t)
     d = st.dom(r)
     st.assume(st.container_wf(r))
     st.set_len(r, z3.If(z3.Select(d, kt), st.clen(r), st.clen(r) + 1))
@@ -153,6 +157,11 @@ def dict_del(eng, st, ref, kt):
         f_in = st.field(f"__in_{o}")
         st.heap.fields[f"__in_{o}"] = z3.If(z3.Select(d, kt), z3.Store(f_in, Val.rid(prev), Val.bool(z3.BoolVal(False))), f_in)
         st.written_fields.add(f"__in_{o}")
+        for name, a in eng.contracts.aggregates.items():
+            if a["over"] == o:
+                c_prev = eng.agg_contrib(st, name, Val.rid(prev))
+                st.assume(z3.Implies(z3.And(z3.Select(d, kt), c_prev >= 0), eng.agg_value(st, name) >= c_prev))  # A-sum (see Engine.agg_member_fact)
+                st.ghost["agg:" + name] = eng.agg_value(st, name) - z3.If(z3.Select(d, kt), c_prev, 0)
     st.assume(st.container_wf(r))
     st.set_len(r, z3.If(z3.Select(d, kt), st.clen(r) - 1, st.clen(r)))
     st.set_dom(r, z3.Store(d, kt, False))
@@ -320,6 +329,11 @@ def slice_(eng, st, v, lo, hi, step):
         raise Unsupported("slice step")
     if isinstance(v, SBytes):
         return bytesalg.slice_(eng, st, v, lo, hi)
+    if isinstance(v, SStr) and not (z3.is_string_value(z3.simplify(v.t)) and all(x is None or z3.is_int_value(z3.simplify(x.t)) for x in (lo, hi))):
+        # slices of symbolic strings are kept abstract (an uninterpreted function of string and bounds): no obligation in the
+        # repository depends on their characters, and the sequence theory makes every query on the path expensive
+        f = z3.Function("py_str_slice", sym.StrS, sym.IntS, sym.IntS, sym.StrS)
+        return [(st, SStr(f(v.t, lo.t if lo is not None else z3.IntVal(0), hi.t if hi is not None else z3.IntVal(-1))))]
     if isinstance(v, SStr):
         n = z3.Length(v.t)
         lo_t = lo.t if lo is not None else z3.IntVal(0)
@@ -944,15 +958,15 @@ def sort_list(eng, st, lst, fresh=True):
     st.assume(z3.ForAll([i, j], z3.Implies(z3.And(i >= 0, i <= j, j < n), le(z3.Select(new, i), z3.Select(new, j)))))
     # consequences stated explicitly (they follow from the three axioms above; they spare the solver the instantiation chain):
     # every element of the old list is bounded by the last / first element of the sorted one
-    st.assume(z3.ForAll([i], z3.Implies(z3.And(i >= 0, i < n), z3.And(le(z3.Select(old, i), z3.Select(new, n - 1)), le(z3.Select(new, 0), z3.Select(old, i)))),
-                        patterns=[z3.Select(old, i)]))
+    st.assume(sym.forall_pat([i], z3.Implies(z3.And(i >= 0, i < n), z3.And(le(z3.Select(old, i), z3.Select(new, n - 1)), le(z3.Select(new, 0), z3.Select(old, i)))),
+                             z3.Select(old, i)))
     dom = getattr(lst, "snap_of_keys", None)
     if dom is not None:
         # the sorted enumeration of a key set: its last (first) element is a member that bounds every member from above (below)
         k = sym.fresh_val("k")
         st.assume(z3.Implies(n > 0, z3.And(z3.Select(dom, z3.Select(new, n - 1)), z3.Select(dom, z3.Select(new, 0)))))
-        st.assume(z3.ForAll([k], z3.Implies(z3.And(n > 0, z3.Select(dom, k)), z3.And(le(k, z3.Select(new, n - 1)), le(z3.Select(new, 0), k))),
-                            patterns=[z3.Select(dom, k)]))
+        st.assume(sym.forall_pat([k], z3.Implies(z3.And(n > 0, z3.Select(dom, k)), z3.And(le(k, z3.Select(new, n - 1)), le(z3.Select(new, 0), k))),
+                                 z3.Select(dom, k)))
     st.set_seq(lst.t, new)
     return lst
 
@@ -1410,6 +1424,9 @@ def construct(eng, st, ci, args, kwargs, node=None):
         r = st.alloc()
         st.heap.dyn_cls = z3.Store(st.heap.dyn_cls, r, z3.IntVal(ci.id))
         ref = SRef(r, TClass(ci.name))
+        if eng.contracts is not None:
+            for o in eng.contracts.owning:  # a new object is held by no owning dict yet (ghost)
+                st.heap.fields[f"__in_{o}"] = z3.Store(st.field(f"__in_{o}"), r, Val.bool(z3.BoolVal(False)))
         if "__init__" in ci.methods:
             init = eng.bound_method(ci, "__init__", ref)
             res = eng.call_function(st, init, args, kwargs, node)
@@ -1466,7 +1483,7 @@ def external_call(eng, st, fv, args, kwargs):
         return eng.contracts.externals[key](eng, st, [obj] + list(args), kwargs)
     eng.externals_used.add(key)
     st.log_event(fv.name, [a for a in args if not isinstance(a, (SFunc, SBuiltin))])
-    return [(st, eng.external_result(st, fv.name, key))]
+    return eng.external_outcomes(st, fv.name, key)
 
 
 def import_stmt(eng, stmt, st, fi):
@@ -1868,7 +1885,20 @@ def spec_ev_argc(eng, node, st, fi):
     return [(s, SBool(z3.And(*conj)))]
 
 
+def spec_agg(eng, node, st, fi):
+    """agg("name"): current value of a ghost aggregate (sum of the declared contribution over the objects held by the owning dict)"""
+    return [(st, SInt(eng.agg_value(st, node.args[0].value)))]
+
+
+def spec_agg_contrib(eng, node, st, fi):
+    """contrib("name", obj): the contribution of obj to the aggregate"""
+    (s, o), = eng.ev(node.args[1], st, fi)
+    return [(s, SInt(eng.agg_contrib(s, node.args[0].value, o.t)))]
+
+
 SPEC_FUNCS = {
+    "agg": spec_agg,
+    "contrib": spec_agg_contrib,
     "ev_name": spec_ev_name,
     "ev_arg": spec_ev_arg,
     "ev_argc": spec_ev_argc,
